@@ -32,6 +32,62 @@ theorem leaf_dispatches_on_literal {ρ : Type} (table : List (List Nat × (Tree 
   simp only [visit, Tree.nameCps, Tree.name, this]
   cases lookupKey ("literal".toList.map Char.toNat) table <;> rfl
 
+/-! ### Handlers found through the class hierarchy, and attributes spelled in the rule name's original letter case
+
+`NodeVisitor.__init__` collects `getattr(self, "visit_...")` for every attribute of the instance: for one key, Python's
+attribute lookup returns the attribute of the FIRST class in the method resolution order that defines it.  `mro` lists the
+classes (most derived first), each with the `visit_*` attributes it defines itself. -/
+
+theorem lookupKey_append {ρ : Type} (key : List Nat) (a b : List (List Nat × (Tree → ρ))) :
+    lookupKey key (a ++ b) = (lookupKey key a).orElse (fun _ => lookupKey key b) := by
+  induction a with
+  | nil => simp [lookupKey]
+  | cons x a ih =>
+    obtain ⟨k, h⟩ := x
+    simp only [List.cons_append, lookupKey]
+    split
+    · simp
+    · exact ih
+
+/-- a handler declared on a base class, on a mixin or on the class itself is found alike: the table of the instance is
+the concatenation of the class dictionaries in resolution order, and the first class that defines the key wins -/
+theorem handler_found_through_hierarchy {ρ : Type} (key : List Nat) (mro : List (List (List Nat × (Tree → ρ)))) :
+    lookupKey key mro.flatten = mro.findSome? (lookupKey key) := by
+  induction mro with
+  | nil => simp [lookupKey]
+  | cons c rest ih =>
+    rw [List.flatten_cons, lookupKey_append, ih, List.findSome?_cons]
+    cases lookupKey key c <;> simp
+
+theorem normCp_idem (c : Nat) : normCp (normCp c) = normCp c := by
+  unfold normCp
+  by_cases h1 : c = 45
+  · subst h1; decide
+  · by_cases h2 : 0x41 ≤ c ∧ c ≤ 0x5A
+    · have a : ¬ (c + 32 = 45) := by omega
+      have b : ¬ (0x41 ≤ c + 32 ∧ c + 32 ≤ 0x5A) := by omega
+      rw [if_neg h1, if_pos h2, if_neg a, if_neg b]
+    · rw [if_neg h1, if_neg h2, if_neg h1, if_neg h2]
+
+theorem normalize_idem (n : List Nat) : normalize (normalize n) = normalize n := by
+  simp [normalize, List.map_map, Function.comp_def, normCp_idem]
+
+/-- an attribute whose name keeps an upper-case letter or a hyphen of the rule name (`visit_ALPHA`, `visit_IPv4address`) is
+the handler of NO node, whatever the node is called: the key looked up is always in normal form -/
+theorem raw_spelling_never_looked_up (key : List Nat) (hraw : normalize key ≠ key) (name : List Nat) :
+    handlerKey name ≠ key := by
+  intro h
+  apply hraw
+  rw [← h]
+  exact normalize_idem name
+
+/-- non-vacuity: `visit_ALPHA` next to `visit_alpha` in a two-level hierarchy: node `ALPHA` gets the lower-case handler
+of the base class -/
+example :
+    let base : List (List Nat × (Tree → Nat)) := [("alpha".toList.map Char.toNat, fun _ => 1)]
+    let derived : List (List Nat × (Tree → Nat)) := [("ALPHA".toList.map Char.toNat, fun _ => 2)]
+    visit [derived, base].flatten (.node "ALPHA" []) = some 1 := by decide
+
 /-- the key is insensitive to the (ASCII) letter case in which the rule name appears -/
 theorem key_case_insensitive (a b : List Nat) (h : a.map lowerCp = b.map lowerCp) :
     handlerKey a = handlerKey b := by
